@@ -1802,6 +1802,10 @@ func (p *printer) spec(spec ast.Spec, n int, doIndent bool) {
 			}
 			p.expr(s.Type)
 		}
+		if s.Tag != nil { // field tag (class files)
+			p.print(blank)
+			p.expr(s.Tag)
+		}
 		if s.Values != nil {
 			p.print(blank, token.ASSIGN, blank)
 			p.exprList(token.NoPos, s.Values, 1, 0, token.NoPos, false)
